@@ -25,6 +25,7 @@ import (
 	"github.com/rpcpool/yellowstone-faithful/blocktimeindex"
 	"github.com/rpcpool/yellowstone-faithful/bucketteer"
 	"github.com/rpcpool/yellowstone-faithful/carreader"
+	"github.com/rpcpool/yellowstone-faithful/compactindexsized"
 	deprecatedbucketter "github.com/rpcpool/yellowstone-faithful/deprecated/bucketteer"
 	"github.com/rpcpool/yellowstone-faithful/gsfa"
 	hugecache "github.com/rpcpool/yellowstone-faithful/huge-cache"
@@ -888,6 +889,11 @@ func (ser *Epoch) GetBlock(ctx context.Context, slot uint64) (*ipldbindcode.Bloc
 	if err != nil {
 		return nil, cid.Cid{}, fmt.Errorf("failed to decode block with CID %s: %w", wantedCid, err)
 	}
+	if uint64(decoded.Slot) != slot {
+		// The slot-to-cid index keeps a truncated hash of each key, not the key: a slot that
+		// has no block can resolve to the block of another slot. That is a miss, not a hit.
+		return nil, cid.Cid{}, fmt.Errorf("failed to find CID for slot %d (index points at block %d): %w", slot, decoded.Slot, compactindexsized.ErrNotFound)
+	}
 	return decoded, wantedCid, nil
 }
 
@@ -965,6 +971,13 @@ func (ser *Epoch) GetTransaction(ctx context.Context, sig solana.Signature) (*ip
 	decoded, err := iplddecoders.DecodeTransaction(data)
 	if err != nil {
 		return nil, cid.Cid{}, fmt.Errorf("failed to decode transaction with CID %s: %w", wantedCid, err)
+	}
+	if gotSig, err := decoded.Signature(); err != nil {
+		return nil, cid.Cid{}, fmt.Errorf("failed to read the signature of transaction %s: %w", wantedCid, err)
+	} else if gotSig != sig {
+		// Same as in GetBlock: the sig-to-cid index can resolve an unknown signature to the
+		// transaction of another signature.
+		return nil, cid.Cid{}, fmt.Errorf("failed to find CID for signature %s (index points at %s): %w", sig, gotSig, compactindexsized.ErrNotFound)
 	}
 	return decoded, wantedCid, nil
 }
